@@ -4,6 +4,10 @@ package main
 // it carries replaced by that of another epoch / another CAR of the same epoch, singly and in pairs, and files
 // swapped between roles; NewEpochFromConfig's accept/reject decision is compared with the model's `load`
 // on the identities the harness reads from the files themselves. Index-metadata codec cases are included.
+// Root CIDs are substituted both by roots of OTHER content (files of another build) and by "sibling" CIDs over the
+// SAME multihash (another codec / CID version) written into copies of the epoch's own files; the configured root
+// of Filecoin mode is one more identity. With a CAR the indexes were not built from every CID is fetched
+// repeatedly (local file, ReaderAt, local file with a location cache filled from the right CAR).
 
 import (
 	"bufio"
@@ -18,10 +22,13 @@ import (
 	"strings"
 	"testing"
 
+	"github.com/ipfs/go-cid"
+	"github.com/multiformats/go-multihash"
 	"github.com/rpcpool/yellowstone-faithful/blocktimeindex"
 	"github.com/rpcpool/yellowstone-faithful/bucketteer"
 	"github.com/rpcpool/yellowstone-faithful/compactindexsized"
 	"github.com/rpcpool/yellowstone-faithful/gsfa/manifest"
+	hugecache "github.com/rpcpool/yellowstone-faithful/huge-cache"
 	"github.com/rpcpool/yellowstone-faithful/indexes"
 	"github.com/rpcpool/yellowstone-faithful/indexmeta"
 	"github.com/rpcpool/yellowstone-faithful/zzverif/vh"
@@ -159,7 +166,7 @@ func vc10Try(dir string, epoch uint64, f vc10Files) error {
 
 func TestVerif_C10(t *testing.T) {
 	rep := vh.NewReport("C10", "load",
-		"epoch A (config epoch 2) with every index file x {file of another epoch, file of another CAR of the same epoch} singly and in pairs, the address-index directory with only its pubkey index / only its manifest replaced, files offered in the wrong role, the CAR replaced; a case = one NewEpochFromConfig call; all combinations enumerated (finite space)")
+		"epoch A (config epoch 2) with every index file x {file of another epoch, file of another CAR of the same epoch} singly and in pairs, the address-index directory with only its pubkey index / only its manifest replaced, files offered in the wrong role, the CAR replaced; the epoch's own files with only the recorded root CID replaced by a sibling CID (same multihash; raw / dag-pb / dag-json codec, CIDv0) in each root-recording file singly, in every pair (same sibling, two siblings) and in all files; Filecoin mode with the configured root replaced (other CAR's root, siblings) and with all indexes of another root; a case = one NewEpochFromConfig call, or one GetNodeByCid through indexes of epoch A and a CAR they were not built from (other CAR / two equal-length sections exchanged / equal-length sections rotated; local file, ReaderAt, warm location cache; every CID fetched 6 times); all combinations enumerated (finite space)")
 	cases := vh.NewCases("cases_c10", []string{"YF.C10_Load"}, "case", "check")
 	rep.Exhaustive = true
 	seed := vh.Seed()
@@ -228,10 +235,7 @@ func TestVerif_C10(t *testing.T) {
 	gsfaVariants["legacy-manifest-v1"] = legacy("g5", A.Gsfa)
 	gsfaVariants["legacy-manifest-v1-of-other-epoch"] = legacy("g6", B.Gsfa)
 	gsfaVariants["legacy-manifest-v1,pubkey-index-of-other-epoch"] = legacy("g7", mix("g7src", A.Gsfa, B.Gsfa))
-	type variant struct {
-		name string
-		f    vc10Files
-	}
+	type variant = vc10Variant
 	var variants []variant
 	variants = append(variants, variant{"baseline", A})
 	roles := []string{"c2o", "s2c", "g2c", "sx", "bt"}
@@ -298,6 +302,15 @@ func TestVerif_C10(t *testing.T) {
 	// everything from the other epoch except the config epoch number
 	variants = append(variants, variant{"all:=other-epoch", vc10Files{A.Car, B.C2o, B.S2c, B.G2c, B.Sx, B.Bt, B.Gsfa}})
 	variants = append(variants, variant{"all:=other-car", vc10Files{A.Car, C.C2o, C.S2c, C.G2c, C.Sx, C.Bt, C.Gsfa}})
+	// sibling root CIDs: the epoch's OWN files in which only the recorded root CID is replaced by a CID over the same
+	// multihash with another codec / CID version (a different root CID): singly, in pairs, and in all files at once
+	// (the only consistent set: one common root CID again)
+	sibVariants, sibNotes := vc10SiblingVariants(work, A, truths[0].RootCid)
+	for _, n := range sibNotes {
+		rep.Note("%s", n)
+	}
+	variants = append(variants, sibVariants...)
+	rep.CountN("sibling-root-cid variants", len(sibVariants))
 
 	for _, v := range variants {
 		err := vc10Try(work, 2, v.f)
@@ -355,6 +368,15 @@ func TestVerif_C10(t *testing.T) {
 			if len(bad) > 0 {
 				rep.Fail("foreign-index-accepted", fmt.Sprintf("variant %s accepted although: %s", v.name, strings.Join(bad, "; ")), map[string]interface{}{"variant": v.name, "files": v.f})
 			}
+			// the files whose recorded root CID was rewritten are otherwise the epoch's own: they still serve its objects
+			if strings.HasPrefix(v.name, "all:=own-but-root-cid-") {
+				cfgPath := filepath.Join(work, "try.yml") // written by vc10Try just above
+				if bad, lerr := vc10WarmCache(cfgPath, vfxNewCache(), truths[0].Objects, vc10StoredBytes(A.Car, truths[0].Objects)); lerr != nil || bad > 0 {
+					rep.Note("variant %s: accepted, but %d of %d objects are not served through the rewritten files (load error %v)", v.name, bad, len(truths[0].Objects), lerr)
+				} else {
+					rep.Count("rewritten-root files serve every object")
+				}
+			}
 		} else if v.name == "baseline" || v.name == "gsfa:=none" {
 			rep.Fail("own-indexes-rejected", fmt.Sprintf("variant %s: %v", v.name, err), map[string]interface{}{"variant": v.name})
 		}
@@ -373,106 +395,11 @@ func TestVerif_C10(t *testing.T) {
 		}
 		rep.Case("identity/"+tr.Spec.Name, true)
 	}
-	// ---- wrong CAR: CID-addressed fetches fail rather than return another object's bytes
-	{
-		x := A
-		x.Car = C.Car
-		tr := &vfxTruth{Spec: vfxSpec{Epoch: 2}, GsfaDir: "", Paths: IndexPaths{CidToOffsetAndSize: x.C2o, SlotToCid: x.S2c, SignatureToCid: x.G2c, SignatureExists: x.Sx, SlotToBlocktime: x.Bt}}
-		cfgPath := filepath.Join(work, "wrongcar.yml")
-		_ = os.WriteFile(cfgPath, []byte(vfxConfigYaml(tr, x.Car)), 0o644)
-		if ep, err := vfxLoadConfigFile(cfgPath, vfxNewCache()); err == nil {
-			carA, _ := os.ReadFile(A.Car)
-			wrong, failed := 0, 0
-			for _, o := range truths[0].Objects {
-				got, gerr := ep.GetNodeByCid(context.Background(), vfxCidFromHex(o.Cid))
-				rep.Case("wrongcar/"+o.Cid, true)
-				if gerr != nil {
-					failed++
-					continue
-				}
-				want := carA[o.Offset+o.SecLen-vc01DataLenC10(carA, o) : o.Offset+o.SecLen]
-				if !bytes.Equal(got, want) {
-					wrong++
-				}
-			}
-			rep.CountN("wrong-car fetches failed", failed)
-			if wrong > 0 {
-				rep.Fail("wrong-car-returns-other-bytes", fmt.Sprintf("%d fetches returned bytes of another object", wrong), nil)
-			}
-			ep.Close()
-		} else {
-			rep.Note("wrong CAR rejected at load: %v", err)
-		}
-	}
-	// ---- a CAR with the same root CID in which two equal-length sections are exchanged (no load-time check can
-	// notice): every fetch by CID must fail or return that CID's own bytes, from a local file AND through a ReaderAt
-	{
-		carA, _ := os.ReadFile(A.Car)
-		objs := truths[0].Objects
-		swapped := false
-		var i1, i2 int
-		for i := 0; i < len(objs) && !swapped; i++ {
-			for j := i + 1; j < len(objs); j++ {
-				if objs[i].SecLen == objs[j].SecLen && objs[i].Cid != objs[j].Cid {
-					i1, i2, swapped = i, j, true
-					break
-				}
-			}
-		}
-		if !swapped {
-			rep.Note("no two sections of equal length in this epoch: swapped-sections CAR not exercised")
-		} else {
-			mod := append([]byte(nil), carA...)
-			copy(mod[objs[i1].Offset:objs[i1].Offset+objs[i1].SecLen], carA[objs[i2].Offset:objs[i2].Offset+objs[i2].SecLen])
-			copy(mod[objs[i2].Offset:objs[i2].Offset+objs[i2].SecLen], carA[objs[i1].Offset:objs[i1].Offset+objs[i1].SecLen])
-			swPath := filepath.Join(work, "swapped.car")
-			_ = os.WriteFile(swPath, mod, 0o644)
-			uris := map[string]string{"file": swPath}
-			if ln, err := net.Listen("tcp", "127.0.0.1:0"); err == nil {
-				srv := &http.Server{Handler: http.FileServer(http.Dir(work))}
-				go srv.Serve(ln)
-				defer srv.Close()
-				uris["readerat"] = fmt.Sprintf("http://%s/swapped.car", ln.Addr().String())
-			} else {
-				rep.Note("loopback listen failed: swapped-sections CAR only through the local file path")
-			}
-			for mode, uri := range uris {
-				tr := &vfxTruth{Spec: vfxSpec{Epoch: 2}, GsfaDir: "", Paths: IndexPaths{CidToOffsetAndSize: A.C2o, SlotToCid: A.S2c, SignatureToCid: A.G2c, SignatureExists: A.Sx, SlotToBlocktime: A.Bt}}
-				cfgPath := filepath.Join(work, "swapped-"+mode+".yml")
-				_ = os.WriteFile(cfgPath, []byte(vfxConfigYaml(tr, uri)), 0o644)
-				ep, err := vfxLoadConfigFile(cfgPath, vfxNewCache())
-				if err != nil {
-					rep.Note("swapped-sections CAR (%s) rejected at load: %v", mode, err)
-					continue
-				}
-				wrong, failed, right := 0, 0, 0
-				for _, o := range objs {
-					got, gerr := ep.GetNodeByCid(context.Background(), vfxCidFromHex(o.Cid))
-					rep.Case("swapped/"+mode+"/"+o.Cid, true)
-					if gerr != nil {
-						failed++
-						continue
-					}
-					want := carA[o.Offset+o.SecLen-vc01DataLenC10(carA, o) : o.Offset+o.SecLen]
-					if bytes.Equal(got, want) {
-						right++
-					} else {
-						wrong++
-					}
-				}
-				rep.CountN("swapped-sections "+mode+": fetches failed", failed)
-				rep.CountN("swapped-sections "+mode+": fetches right", right)
-				if wrong > 0 {
-					rep.Fail("wrong-car-returns-other-bytes:"+mode, fmt.Sprintf("CAR with two exchanged sections, served as %s: %d fetches by CID returned the bytes of ANOTHER object", mode, wrong),
-						map[string]interface{}{"mode": mode, "exchanged_objects": []int{i1, i2}})
-				}
-				if failed != 2 {
-					rep.Note("swapped-sections %s: %d fetches failed (expected exactly the 2 exchanged objects)", mode, failed)
-				}
-				ep.Close()
-			}
-		}
-	}
+	// ---- Filecoin mode: the configured root CID is one more identity the indexes are compared with
+	vc10FilecoinCases(rep, work, A, C, truths[0].RootCid, truths[2].RootCid)
+	// ---- wrong CAR: CID-addressed fetches fail rather than return another object's bytes — on the first fetch of a
+	// CID and on every later one (every CID is fetched several times through the same Epoch)
+	vc10WrongCarCases(rep, work, A, C, truths[0])
 	// ---- metadata codec
 	rng := vh.NewRng(seed + 3)
 	for i := 0; i < 60; i++ {
@@ -558,4 +485,686 @@ func vc01DataLenC10(car []byte, o vfxObj) uint64 {
 		}
 	}
 	return o.SecLen - w - uint64(o.CidLen)
+}
+
+// ---------------------------------------------------------------- helpers (sibling root CIDs, repeated wrong-CAR fetches)
+// These live in this file because C13 also maps this file into its build.
+//  (1) "sibling" root CIDs — same multihash as the epoch's root, another multicodec / CID version — written into ONE
+//      identity field of an otherwise unchanged copy of an index file (compact index, sig-exists, gsfa manifest):
+//      a sibling CID is a different root CID, so a load that mixes it with the epoch's own files must be rejected
+//      exactly like a root of other content;
+//  (2) repeated CID-addressed fetches through one Epoch whose CAR is not the one the indexes were built from: every
+//      answer of every round is judged by the same oracle (the bytes stored under the requested CID, or an error).
+// The rewriting works on the bytes of the files with its own reading of the metadata layout (count byte, then per
+// pair: key-length byte, key, value-length byte, value), not with the tree's indexmeta code.
+
+// ---------------------------------------------------------------- sibling CIDs
+
+type vc10Sibling struct {
+	Name string
+	Cid  cid.Cid
+}
+
+// vc10Siblings: the CIDs over the multihash of root that differ from root in codec and/or version.
+func vc10Siblings(root cid.Cid) []vc10Sibling {
+	var out []vc10Sibling
+	add := func(name string, mk func() cid.Cid) {
+		defer func() { _ = recover() }() // a constructor may refuse a multihash (CIDv0 takes sha2-256 only)
+		c := mk()
+		if c.Defined() && !c.Equals(root) && bytes.Equal(c.Hash(), root.Hash()) {
+			for _, o := range out {
+				if o.Cid.Equals(c) {
+					return
+				}
+			}
+			out = append(out, vc10Sibling{name, c})
+		}
+	}
+	h := root.Hash()
+	add("v1-raw", func() cid.Cid { return cid.NewCidV1(cid.Raw, h) })
+	add("v1-dag-pb", func() cid.Cid { return cid.NewCidV1(cid.DagProtobuf, h) })
+	add("v1-dag-cbor", func() cid.Cid { return cid.NewCidV1(cid.DagCBOR, h) })
+	add("v1-dag-json", func() cid.Cid { return cid.NewCidV1(cid.DagJSON, h) }) // two-byte codec: the CID is one byte longer
+	add("v0", func() cid.Cid {
+		dec, err := multihash.Decode(h)
+		if err != nil || dec.Code != multihash.SHA2_256 || dec.Length != 32 {
+			return cid.Undef
+		}
+		return cid.NewCidV0(h) // the bare multihash: two bytes shorter
+	})
+	return out
+}
+
+// ---------------------------------------------------------------- metadata rewriting
+
+// vc10MetaSetValue reads the metadata block at the start of b and returns it re-encoded with the value of the first
+// pair with the given key replaced, together with the number of bytes the original block occupies.
+func vc10MetaSetValue(b []byte, key, val []byte) (out []byte, used int, err error) {
+	if len(b) < 1 {
+		return nil, 0, fmt.Errorf("metadata: empty")
+	}
+	if len(val) > 255 {
+		return nil, 0, fmt.Errorf("metadata: value too long")
+	}
+	n, p, found := int(b[0]), 1, false
+	out = []byte{b[0]}
+	for i := 0; i < n; i++ {
+		if p >= len(b) {
+			return nil, 0, fmt.Errorf("metadata: truncated at pair %d", i)
+		}
+		kl := int(b[p])
+		if p+1+kl >= len(b) {
+			return nil, 0, fmt.Errorf("metadata: truncated key at pair %d", i)
+		}
+		k := b[p+1 : p+1+kl]
+		p += 1 + kl
+		vl := int(b[p])
+		if p+1+vl > len(b) {
+			return nil, 0, fmt.Errorf("metadata: truncated value at pair %d", i)
+		}
+		v := b[p+1 : p+1+vl]
+		p += 1 + vl
+		if !found && bytes.Equal(k, key) {
+			v, found = val, true
+		}
+		out = append(out, byte(len(k)))
+		out = append(out, k...)
+		out = append(out, byte(len(v)))
+		out = append(out, v...)
+	}
+	if !found {
+		return nil, 0, fmt.Errorf("metadata: no %q pair", key)
+	}
+	return out, p, nil
+}
+
+// compact index: magic(8) | u32 length of the rest of the header | value size(8) | buckets(4) | version(1) | metadata |
+// bucket table (16 bytes per bucket, bytes 10..15 = ABSOLUTE file offset of the bucket's entries) | entries.
+func vc10RewriteCompactIndex(data []byte, key, val []byte) ([]byte, error) {
+	if len(data) < 26 || !bytes.Equal(data[:8], compactindexsized.Magic[:]) {
+		return nil, fmt.Errorf("not a compact index")
+	}
+	l := int(binary.LittleEndian.Uint32(data[8:12]))
+	hdrEnd := 12 + l
+	if l < 14 || hdrEnd > len(data) {
+		return nil, fmt.Errorf("compact index: header length %d", l)
+	}
+	nb := int(binary.LittleEndian.Uint32(data[20:24]))
+	meta, used, err := vc10MetaSetValue(data[25:hdrEnd], key, val)
+	if err != nil {
+		return nil, err
+	}
+	if used != hdrEnd-25 {
+		return nil, fmt.Errorf("compact index: metadata occupies %d of %d header bytes", used, hdrEnd-25)
+	}
+	tblEnd := hdrEnd + nb*16
+	if nb <= 0 || tblEnd > len(data) {
+		return nil, fmt.Errorf("compact index: bucket table out of range")
+	}
+	d := len(meta) - used
+	out := append([]byte(nil), data[:8]...)
+	out = binary.LittleEndian.AppendUint32(out, uint32(l+d))
+	out = append(out, data[12:25]...)
+	out = append(out, meta...)
+	tbl := append([]byte(nil), data[hdrEnd:tblEnd]...)
+	for i := 0; i < nb; i++ {
+		f := tbl[i*16+10 : i*16+16]
+		var off uint64
+		for j := 5; j >= 0; j-- {
+			off = off<<8 | uint64(f[j])
+		}
+		off = uint64(int64(off) + int64(d))
+		for j := 0; j < 6; j++ {
+			f[j] = byte(off >> (8 * j))
+		}
+	}
+	out = append(out, tbl...)
+	out = append(out, data[tblEnd:]...)
+	return out, nil
+}
+
+// sig-exists: u32 header size | header = magic(8) version(8) metadata prefix table | content (offsets relative to its start).
+func vc10RewriteSigExists(data []byte, key, val []byte) ([]byte, error) {
+	if len(data) < 21 {
+		return nil, fmt.Errorf("sig-exists: too short")
+	}
+	hs := int(binary.LittleEndian.Uint32(data[:4]))
+	if hs < 17 || 4+hs > len(data) {
+		return nil, fmt.Errorf("sig-exists: header size %d", hs)
+	}
+	meta, used, err := vc10MetaSetValue(data[20:4+hs], key, val)
+	if err != nil {
+		return nil, err
+	}
+	out := binary.LittleEndian.AppendUint32(nil, uint32(hs+len(meta)-used))
+	out = append(out, data[4:20]...)
+	out = append(out, meta...)
+	out = append(out, data[20+used:]...)
+	return out, nil
+}
+
+// gsfa manifest: magic(8) version(8) metadata | 16-byte records.
+func vc10RewriteManifest(data []byte, key, val []byte) ([]byte, error) {
+	if len(data) < 17 {
+		return nil, fmt.Errorf("manifest: too short")
+	}
+	meta, used, err := vc10MetaSetValue(data[16:], key, val)
+	if err != nil {
+		return nil, err
+	}
+	out := append([]byte(nil), data[:16]...)
+	out = append(out, meta...)
+	out = append(out, data[16+used:]...)
+	return out, nil
+}
+
+// vc10Rewriters: role -> rewriting function ("man"/"offs" are the two files of the address-index directory).
+var vc10Rewriters = map[string]func([]byte, []byte, []byte) ([]byte, error){
+	"c2o": vc10RewriteCompactIndex, "s2c": vc10RewriteCompactIndex, "g2c": vc10RewriteCompactIndex, "offs": vc10RewriteCompactIndex,
+	"sx": vc10RewriteSigExists, "man": vc10RewriteManifest,
+}
+
+const vc10OffsName = "pubkey-to-offset-and-size.index"
+
+func vc10GsfaFile(dir, role string) string {
+	if role == "man" {
+		return filepath.Join(dir, "manifest")
+	}
+	return filepath.Join(dir, string(indexes.Kind_PubkeyToOffsetAndSize)+".index")
+}
+
+// vc10WithRoot returns the path of a copy of the role's file of f (for "man"/"offs": of a copy of the address-index
+// directory) whose recorded root CID is c and which is otherwise the file itself. selfcheck: rewriting the recorded
+// root CID with itself must reproduce the file byte for byte.
+func vc10WithRoot(work string, f vc10Files, role string, tag string, c cid.Cid, own cid.Cid) (string, error) {
+	src := ""
+	switch role {
+	case "c2o":
+		src = f.C2o
+	case "s2c":
+		src = f.S2c
+	case "g2c":
+		src = f.G2c
+	case "sx":
+		src = f.Sx
+	case "man", "offs":
+		src = vc10GsfaFile(f.Gsfa, role)
+	}
+	data, err := os.ReadFile(src)
+	if err != nil {
+		return "", err
+	}
+	rw := vc10Rewriters[role]
+	same, err := rw(data, indexmeta.MetadataKey_RootCid, own.Bytes())
+	if err != nil {
+		return "", fmt.Errorf("%s: %w", role, err)
+	}
+	if !bytes.Equal(same, data) {
+		return "", fmt.Errorf("%s: the file does not record the root CID %s in the expected place (rewriting it with itself changes the file)", role, own)
+	}
+	out, err := rw(data, indexmeta.MetadataKey_RootCid, c.Bytes())
+	if err != nil {
+		return "", fmt.Errorf("%s: %w", role, err)
+	}
+	if role == "man" || role == "offs" {
+		d := filepath.Join(work, "sib-"+tag+"-"+role)
+		_ = os.MkdirAll(d, 0o755)
+		ents, err := os.ReadDir(f.Gsfa)
+		if err != nil {
+			return "", err
+		}
+		for _, e := range ents {
+			if e.IsDir() {
+				continue
+			}
+			b, err := os.ReadFile(filepath.Join(f.Gsfa, e.Name()))
+			if err != nil {
+				return "", err
+			}
+			if filepath.Join(f.Gsfa, e.Name()) == src {
+				b = out
+			}
+			if err := os.WriteFile(filepath.Join(d, e.Name()), b, 0o644); err != nil {
+				return "", err
+			}
+		}
+		return d, nil
+	}
+	dst := filepath.Join(work, "sib-"+tag+"-"+role+filepath.Ext(src))
+	if err := os.WriteFile(dst, out, 0o644); err != nil {
+		return "", err
+	}
+	return dst, nil
+}
+
+type vc10Variant struct {
+	name string
+	f    vc10Files
+}
+
+var vc10SibRoles = []string{"c2o", "s2c", "g2c", "sx", "man", "offs"}
+
+type vc10Assign struct {
+	role string
+	sib  vc10Sibling
+}
+
+// vc10SibSet builds rewritten copies on demand and keeps them (one copy per role x sibling; one directory per
+// assignment of siblings to {manifest, pubkey index}).
+type vc10SibSet struct {
+	work  string
+	f     vc10Files
+	own   cid.Cid
+	paths map[string]string
+}
+
+func (s *vc10SibSet) with(as []vc10Assign) (vc10Files, error) {
+	x := s.f
+	gs := ""
+	for _, a := range as {
+		r, sib := a.role, a.sib
+		if r == "man" || r == "offs" {
+			gs += "+" + r + "=" + sib.Name
+			if _, ok := s.paths[gs]; !ok {
+				y := s.f
+				y.Gsfa = x.Gsfa
+				p, err := vc10WithRoot(s.work, y, r, gs[1:], sib.Cid, s.own)
+				if err != nil {
+					return x, err
+				}
+				s.paths[gs] = p
+			}
+			x.Gsfa = s.paths[gs]
+			continue
+		}
+		key := r + "=" + sib.Name
+		if _, ok := s.paths[key]; !ok {
+			p, err := vc10WithRoot(s.work, s.f, r, key, sib.Cid, s.own)
+			if err != nil {
+				return x, err
+			}
+			s.paths[key] = p
+		}
+		switch r {
+		case "c2o":
+			x.C2o = s.paths[key]
+		case "s2c":
+			x.S2c = s.paths[key]
+		case "g2c":
+			x.G2c = s.paths[key]
+		case "sx":
+			x.Sx = s.paths[key]
+		}
+	}
+	return x, nil
+}
+
+// vc10SiblingVariants: for every sibling of the epoch's root CID: each root-recording file alone, each pair of them
+// (the same sibling in both, and two different siblings), and all of them, carrying the sibling instead of the root;
+// everything else is the epoch's own.
+func vc10SiblingVariants(work string, f vc10Files, rootStr string) (out []vc10Variant, notes []string) {
+	root, err := cid.Decode(rootStr)
+	if err != nil {
+		return nil, []string{fmt.Sprintf("sibling root CIDs not exercised: root CID %q: %v", rootStr, err)}
+	}
+	sibs := vc10Siblings(root)
+	if len(sibs) == 0 {
+		return nil, []string{"sibling root CIDs not exercised: no sibling of " + rootStr}
+	}
+	set := &vc10SibSet{work: work, f: f, own: root, paths: map[string]string{}}
+	roles := vc10SibRoles
+	if f.Gsfa == "" {
+		roles = roles[:4]
+	}
+	skipped := map[string]bool{}
+	add := func(as ...vc10Assign) {
+		x, err := set.with(as)
+		if err != nil {
+			if !skipped[err.Error()] {
+				skipped[err.Error()] = true
+				notes = append(notes, "sibling root CID variant skipped: "+err.Error())
+			}
+			return
+		}
+		name := ""
+		for i, a := range as {
+			if i > 0 {
+				name += ","
+			}
+			name += a.role + ":=own-but-root-cid-" + a.sib.Name
+		}
+		if len(as) == len(roles) {
+			name = "all:=own-but-root-cid-" + as[0].sib.Name
+		}
+		out = append(out, vc10Variant{name, x})
+	}
+	for k, sib := range sibs {
+		other := sibs[(k+1)%len(sibs)]
+		for i, r1 := range roles {
+			add(vc10Assign{r1, sib})
+			for _, r2 := range roles[i+1:] {
+				add(vc10Assign{r1, sib}, vc10Assign{r2, sib})
+				if len(sibs) > 1 {
+					add(vc10Assign{r1, sib}, vc10Assign{r2, other})
+				}
+			}
+		}
+		var all []vc10Assign
+		for _, r := range roles {
+			all = append(all, vc10Assign{r, sib})
+		}
+		add(all...)
+	}
+	return out, notes
+}
+
+// ---------------------------------------------------------------- Filecoin mode (configured root CID)
+
+// vc10FilecoinYaml: a Filecoin-mode config (no CAR, no cid-to-offset-and-size index) with the given configured root.
+func vc10FilecoinYaml(epoch uint64, f vc10Files, root string) string {
+	cfg := fmt.Sprintf("epoch: %d\nversion: 1\ndata:\n  filecoin:\n    enable: true\n    root_cid: %s\nindexes:\n  slot_to_cid:\n    uri: '%s'\n  sig_to_cid:\n    uri: '%s'\n  sig_exists:\n    uri: '%s'\n  slot_to_blocktime:\n    uri: '%s'\n",
+		epoch, root, f.S2c, f.G2c, f.Sx, f.Bt)
+	if f.Gsfa != "" {
+		cfg += fmt.Sprintf("  gsfa:\n    uri: '%s'\n", f.Gsfa)
+	}
+	return cfg
+}
+
+func vc10TryFilecoin(dir string, epoch uint64, f vc10Files, root string) error {
+	cfgPath := filepath.Join(dir, "try-filecoin.yml")
+	_ = os.WriteFile(cfgPath, []byte(vc10FilecoinYaml(epoch, f, root)), 0o644)
+	ep, err := vfxLoadConfigFile(cfgPath, vfxSharedCache())
+	if err == nil {
+		ep.Close()
+	}
+	return err
+}
+
+// ---------------------------------------------------------------- repeated fetches from a CAR the indexes were not built from
+
+type vc10FetchTally struct {
+	Wrong, Failed, Right int
+	FirstWrong           map[string]interface{}
+}
+
+// vc10FetchRounds fetches every object of objs by CID `rounds` times through ep (all objects, then all objects again, ...)
+// and then each object three more times back to back. want(o) = the bytes stored under o's CID in the CAR the indexes
+// were built from. An answer is right (those bytes), failed (an error or a panic) or wrong (any other bytes).
+func vc10FetchRounds(rep *vh.Report, ep *Epoch, objs []vfxObj, want func(vfxObj) []byte, key string, rounds int) vc10FetchTally {
+	var t vc10FetchTally
+	one := func(o vfxObj, sched string, n int) {
+		var got []byte
+		var gerr error
+		func() {
+			defer func() {
+				if r := recover(); r != nil {
+					gerr = fmt.Errorf("panic: %v", r)
+				}
+			}()
+			got, gerr = ep.GetNodeByCid(context.Background(), vfxCidFromHex(o.Cid))
+		}()
+		rep.Case(fmt.Sprintf("%s/%s%d/%s", key, sched, n, o.Cid), true)
+		switch {
+		case gerr != nil:
+			t.Failed++
+		case bytes.Equal(got, want(o)):
+			t.Right++
+		default:
+			t.Wrong++
+			if t.FirstWrong == nil {
+				t.FirstWrong = map[string]interface{}{"cid": vfxCidFromHex(o.Cid).String(), "schedule": sched, "fetch_number_of_this_cid": n + 1,
+					"returned_len": len(got), "stored_len": len(want(o))}
+			}
+		}
+	}
+	for r := 0; r < rounds; r++ {
+		for _, o := range objs {
+			one(o, "round", r)
+		}
+	}
+	for _, o := range objs {
+		for n := 0; n < 3; n++ {
+			one(o, "again", rounds+n)
+		}
+	}
+	return t
+}
+
+// vc10StoredBytes: o -> the bytes stored under o's CID in the CAR file at path (the CAR the objects were listed from).
+func vc10StoredBytes(path string, objs []vfxObj) func(vfxObj) []byte {
+	car, _ := os.ReadFile(path)
+	return func(o vfxObj) []byte {
+		if o.Offset+o.SecLen > uint64(len(car)) {
+			return nil
+		}
+		return car[o.Offset+o.SecLen-vc01DataLenC10(car, o) : o.Offset+o.SecLen]
+	}
+}
+
+// vc10WarmCache loads the epoch of the given config with the cache and fetches every object once (this is the process
+// serving the epoch from its own CAR before the CAR is replaced); returns how many fetches did not give the stored bytes.
+func vc10WarmCache(cfgPath string, cache *hugecache.Cache, objs []vfxObj, want func(vfxObj) []byte) (int, error) {
+	ep, err := vfxLoadConfigFile(cfgPath, cache)
+	if err != nil {
+		return 0, err
+	}
+	defer ep.Close()
+	bad := 0
+	for _, o := range objs {
+		got, gerr := ep.GetNodeByCid(context.Background(), vfxCidFromHex(o.Cid))
+		if gerr != nil || !bytes.Equal(got, want(o)) {
+			bad++
+		}
+	}
+	return bad, nil
+}
+
+// vc10FilecoinCases: epoch A in Filecoin mode (slot-to-cid, sig-to-cid, sig-exists, block times, address index; no CAR).
+// Baseline: the configured root CID is the one the indexes record. Then (a) the configured root replaced by the root
+// of another CAR and by each sibling of the epoch's root, the files being the epoch's own; (b) the configured root is
+// the epoch's and EVERY index records one and the same other root CID (only the comparison with the configured root
+// can notice). Every such load must be rejected. When the baseline does not load in this environment (the Filecoin
+// retrieval client needs a libp2p host), nothing can be concluded and the block is skipped with a note.
+func vc10FilecoinCases(rep *vh.Report, work string, A, C vc10Files, rootA, rootC string) {
+	root, err := cid.Decode(rootA)
+	if err != nil {
+		rep.Note("Filecoin mode not exercised: root CID %q: %v", rootA, err)
+		return
+	}
+	if err := vc10TryFilecoin(work, 2, A, rootA); err != nil {
+		rep.Note("Filecoin mode not exercised (the epoch's own indexes with its own configured root do not load here): %v", err)
+		return
+	}
+	rep.Case("filecoin/baseline", true)
+	rep.Count("Filecoin-mode loads")
+	type alt struct {
+		name string
+		c    string
+	}
+	alts := []alt{{"root-of-other-car", rootC}}
+	sibs := vc10Siblings(root)
+	for _, s := range sibs {
+		alts = append(alts, alt{"sibling-" + s.Name, s.Cid.String()})
+	}
+	for _, a := range alts {
+		err := vc10TryFilecoin(work, 2, A, a.c)
+		rep.Case("filecoin/configured-root:="+a.name, true)
+		rep.Count("Filecoin-mode loads")
+		if err == nil {
+			rep.Count("accepted")
+			rep.Fail("foreign-configured-root-accepted",
+				fmt.Sprintf("Filecoin mode: NewEpochFromConfig accepted the configured root CID %s (%s) although every index records root CID %s", a.c, a.name, rootA),
+				map[string]interface{}{"configured_root": a.c, "recorded_root": rootA, "files": A})
+		} else {
+			rep.Count("rejected")
+		}
+	}
+	// all indexes of another root, the configured root the epoch's own
+	type set struct {
+		name string
+		f    vc10Files
+		rec  string
+	}
+	sets := []set{{"indexes-of-other-car", vc10Files{"", "", C.S2c, C.G2c, C.Sx, C.Bt, C.Gsfa}, rootC}}
+	ss := &vc10SibSet{work: work, f: A, own: root, paths: map[string]string{}}
+	for _, s := range sibs {
+		var as []vc10Assign
+		for _, r := range vc10SibRoles[1:] {
+			if A.Gsfa == "" && (r == "man" || r == "offs") {
+				continue
+			}
+			as = append(as, vc10Assign{r, s})
+		}
+		x, err := ss.with(as)
+		if err != nil {
+			continue // already noted by the CAR-mode variants
+		}
+		sets = append(sets, set{"indexes-record-sibling-" + s.Name, x, s.Cid.String()})
+	}
+	for _, s := range sets {
+		err := vc10TryFilecoin(work, 2, s.f, rootA)
+		rep.Case("filecoin/"+s.name, true)
+		rep.Count("Filecoin-mode loads")
+		if err == nil {
+			rep.Count("accepted")
+			rep.Fail("foreign-configured-root-accepted",
+				fmt.Sprintf("Filecoin mode: NewEpochFromConfig accepted indexes that all record root CID %s (%s) although the configured root CID is %s", s.rec, s.name, rootA),
+				map[string]interface{}{"configured_root": rootA, "recorded_root": s.rec, "files": s.f})
+		} else {
+			rep.Count("rejected")
+		}
+	}
+}
+
+// vc10WrongCarCases: epoch A's indexes with a CAR they were not built from:
+//
+//	other-car    the CAR of another build of the same epoch (other content);
+//	exchanged    A's CAR with two equal-length sections exchanged (same root CID: no load-time check can notice);
+//	permuted     A's CAR with the sections of every group of equal length rotated by one place;
+//
+// each served from the local file, through a ReaderAt (HTTP range requests), and from the local file by a process
+// whose location cache was filled while it served the epoch from its own CAR. Every CID is fetched several times.
+func vc10WrongCarCases(rep *vh.Report, work string, A, C vc10Files, trA *vfxTruth) {
+	carA, err := os.ReadFile(A.Car)
+	if err != nil {
+		rep.Note("wrong-CAR fetches not exercised: %v", err)
+		return
+	}
+	objs := trA.Objects
+	want := func(o vfxObj) []byte { return carA[o.Offset+o.SecLen-vc01DataLenC10(carA, o) : o.Offset+o.SecLen] }
+	type wcar struct {
+		name, path string
+		moved      int // sections that are not where the index says (-1: unknown)
+	}
+	cars := []wcar{{"other-car", C.Car, -1}}
+	// exchanged: the first two different sections of equal length
+	exchanged := func() {
+		for i := 0; i < len(objs); i++ {
+			for j := i + 1; j < len(objs); j++ {
+				if objs[i].SecLen == objs[j].SecLen && objs[i].Cid != objs[j].Cid {
+					mod := append([]byte(nil), carA...)
+					copy(mod[objs[i].Offset:objs[i].Offset+objs[i].SecLen], carA[objs[j].Offset:objs[j].Offset+objs[j].SecLen])
+					copy(mod[objs[j].Offset:objs[j].Offset+objs[j].SecLen], carA[objs[i].Offset:objs[i].Offset+objs[i].SecLen])
+					p := filepath.Join(work, "swapped.car")
+					if os.WriteFile(p, mod, 0o644) == nil {
+						cars = append(cars, wcar{"exchanged", p, 2})
+					}
+					return
+				}
+			}
+		}
+		rep.Note("no two sections of equal length in this epoch: exchanged-sections CAR not exercised")
+	}
+	exchanged()
+	// permuted: within every group of sections of one length, section k takes the place of section k+1
+	{
+		groups := map[uint64][]int{}
+		var lens []uint64
+		for i, o := range objs {
+			if _, ok := groups[o.SecLen]; !ok {
+				lens = append(lens, o.SecLen)
+			}
+			groups[o.SecLen] = append(groups[o.SecLen], i)
+		}
+		mod := append([]byte(nil), carA...)
+		moved := 0
+		for _, l := range lens {
+			g := groups[l]
+			if len(g) < 2 {
+				continue
+			}
+			for k := range g {
+				src, dst := objs[g[k]], objs[g[(k+1)%len(g)]]
+				copy(mod[dst.Offset:dst.Offset+l], carA[src.Offset:src.Offset+l])
+				if src.Cid != dst.Cid {
+					moved++
+				}
+			}
+		}
+		p := filepath.Join(work, "permuted.car")
+		if moved > 2 && os.WriteFile(p, mod, 0o644) == nil {
+			cars = append(cars, wcar{"permuted", p, moved})
+		}
+	}
+	var base string
+	if ln, err := net.Listen("tcp", "127.0.0.1:0"); err == nil {
+		srv := &http.Server{Handler: http.FileServer(http.Dir("/"))}
+		go srv.Serve(ln)
+		defer srv.Close()
+		base = "http://" + ln.Addr().String()
+	} else {
+		rep.Note("loopback listen failed: wrong CARs only through the local file path")
+	}
+	cfgOf := func(name, uri string) string {
+		tr := &vfxTruth{Spec: vfxSpec{Epoch: 2}, GsfaDir: "", Paths: IndexPaths{CidToOffsetAndSize: A.C2o, SlotToCid: A.S2c, SignatureToCid: A.G2c, SignatureExists: A.Sx, SlotToBlocktime: A.Bt}}
+		p := filepath.Join(work, name+".yml")
+		_ = os.WriteFile(p, []byte(vfxConfigYaml(tr, uri)), 0o644)
+		return p
+	}
+	ownCfg := cfgOf("wrongcar-own", A.Car)
+	rounds := 3
+	if vh.Thorough() {
+		rounds = 9
+	}
+	for _, wc := range cars {
+		modes := []string{"file", "file-warm-location-cache"}
+		if base != "" {
+			modes = append(modes, "readerat")
+		}
+		for _, mode := range modes {
+			uri := wc.path
+			if mode == "readerat" {
+				uri = base + wc.path
+			}
+			cache := vfxNewCache()
+			if mode == "file-warm-location-cache" {
+				bad, err := vc10WarmCache(ownCfg, cache, objs, want)
+				if err != nil || bad > 0 {
+					rep.Note("wrong CAR %s/%s skipped: the epoch's own CAR did not serve every object (load error %v, %d objects not served)", wc.name, mode, err, bad)
+					continue
+				}
+			}
+			ep, err := vfxLoadConfigFile(cfgOf("wrongcar-"+wc.name+"-"+mode, uri), cache)
+			if err != nil {
+				rep.Note("wrong CAR %s (%s) rejected at load: %v", wc.name, mode, err)
+				continue
+			}
+			t := vc10FetchRounds(rep, ep, objs, want, "wrongcar/"+wc.name+"/"+mode, rounds)
+			ep.Close()
+			rep.CountN("wrong CAR "+wc.name+" "+mode+": fetches failed", t.Failed)
+			rep.CountN("wrong CAR "+wc.name+" "+mode+": fetches right", t.Right)
+			if t.Wrong > 0 {
+				sig := "wrong-car-returns-other-bytes:" + mode
+				if wc.name == "other-car" && mode == "file" {
+					sig = "wrong-car-returns-other-bytes"
+				}
+				rep.Fail(sig, fmt.Sprintf("indexes of epoch A with the %s CAR, served as %s, every CID fetched %d times: %d fetches by CID returned bytes that are not the ones stored under the requested CID (first: %v)",
+					wc.name, mode, rounds+3, t.Wrong, t.FirstWrong),
+					map[string]interface{}{"car": wc.name, "mode": mode, "first_wrong": t.FirstWrong})
+			}
+			if wc.moved >= 0 && t.Failed != wc.moved*(rounds+3) {
+				rep.Note("wrong CAR %s %s: %d fetches failed (expected %d = %d displaced objects x %d fetches)", wc.name, mode, t.Failed, wc.moved*(rounds+3), wc.moved, rounds+3)
+			}
+		}
+	}
 }
